@@ -1,6 +1,6 @@
 ---------------------------- MODULE TraceDagWalk ----------------------------
 (* Phase T: histories recorded from the real Walk / WalkDepth (one event per callback the walk
-   makes: visit, getLinks, OnMissing, OnError, StartProviding, plus Return; `w` = the goroutine
+   makes: visit, getLinks call (Fetch) and return (FetchRet), OnMissing, OnError, StartProviding, plus Return; `w` = the goroutine
    that made the call) must be behaviours of DagWalk.
 
    Logged events drive the worker-side actions of DagWalk directly (WVisit, WFetch, WCallback,
@@ -84,9 +84,31 @@ TEager ==
      \/ SeqReturn
      \/ SeqErr
 SameErr(a, b) == a.k = b.k /\ a.n = b.n
-TErrRecv ==                        \* the dispatcher takes one worker's error; seen only through Return
-  /\ ~returned /\ HasEv /\ Ev.ev = "Return" /\ Quiet /\ main = "loop"
-  /\ \E w \in Workers : wk[w].pc = "err" /\ SameErr(wk[w].err, Ev.res) /\ ErrRecv(w)
+\* A cancelled fetch shows that the dispatcher has already taken an error and returned (nothing else cancels a
+\* walk-owned context).  Items it had handed out before that are still visited afterwards: a worker that is idle
+\* in the model but whose next logged event belongs to this walk got its item before the dispatcher returned.
+EndEvs == {"Return", "Reset", "Hang", "Crash", "FG"}
+CancelSeen == HasEv /\ Ev.ev = "FetchRet" /\ Ev.st = "cancelled"
+NextOf(w) == LET S == {k \in l..Len(Trace) : Trace[k].w = w \/ Trace[k].ev \in EndEvs}
+             IN  IF S = {} THEN 0 ELSE CHOOSE k \in S : \A j \in S : k <= j
+Owed(w) == /\ wk[w].pc = "idle"
+           /\ LET k == NextOf(w) IN k > 0 /\ Trace[k].w = w /\ Trace[k].ev \notin EndEvs
+TDispatchOwed ==
+  /\ ~returned /\ CancelSeen /\ Quiet /\ ~IsSeq /\ main = "loop"
+  /\ \E w \in Workers :
+       /\ Owed(w)
+       /\ \A v \in Workers : v < w => ~Owed(v)
+       /\ LET e == Trace[NextOf(w)]
+              d == IF e.ev = "Visit" THEN e.d ELSE 0            \* a skipped root's first event is its Fetch
+          IN  /\ [c |-> e.c, d |-> d] \in ToSet(Pending)
+              /\ DispatchAt(w, FirstMatch(Pending, e.c, d))
+  /\ Silent
+TErrRecv ==                        \* the dispatcher takes one worker's error; seen only through Return ...
+  /\ ~returned /\ HasEv /\ Quiet /\ main = "loop"
+  /\ Ev.ev = "Return" \/ (CancelSeen /\ \A w \in Workers : ~Owed(w))    \* ... or through a cancelled sibling fetch
+  /\ \E w \in Workers : /\ wk[w].pc = "err"
+                        /\ Ev.ev = "Return" => SameErr(wk[w].err, Ev.res)
+                        /\ ErrRecv(w)
   /\ Silent
 
 \* ---- logged events -----------------------------------------------------------------------
@@ -96,6 +118,13 @@ TVisit == /\ Live /\ IsEvent("Visit")
 TFetch == /\ Live /\ IsEvent("Fetch")
           /\ wk[W].pc = "fetch" /\ wk[W].c = Ev.c /\ Ev.st = cfg.status[Ev.c]
           /\ WFetch(W)
+\* getLinks returned: Ev.st is what the harness's fetcher really returned ("cancelled" = the context it was
+\* given was done: the fetcher honours cancellation).  The caller's context is never cancelled in recorded runs,
+\* so a cancelled fetch is only possible once the walk is ending, and nothing may be reported for it.
+TFetchRet == /\ Live /\ IsEvent("FetchRet")
+             /\ wk[W].pc = "infl" /\ wk[W].c = Ev.c
+             /\ IF Ev.st = "cancelled" THEN WFetchCancelled(W)
+                ELSE Ev.st = cfg.status[Ev.c] /\ WFetchRet(W)
 TCallback == /\ Live /\ (IsEvent("OnMissing") \/ IsEvent("OnError"))
              /\ wk[W].pc = "cb"
              /\ LET cb == Head(wk[W].cbq) IN /\ cb.cb = Ev.ev /\ cb.c = Ev.c
@@ -157,8 +186,8 @@ TFG == /\ IsEvent("FG") /\ returned
 
 TNext == \/ TReset
          \/ /\ UNCHANGED devAll
-            /\ \/ TDispatch \/ TSkipRootVisit \/ TEager \/ TErrRecv
-               \/ TVisit \/ TFetch \/ TCallback \/ TProvide \/ TReturn \/ TCrash \/ TFG
+            /\ \/ TDispatch \/ TDispatchOwed \/ TSkipRootVisit \/ TEager \/ TErrRecv
+               \/ TVisit \/ TFetch \/ TFetchRet \/ TCallback \/ TProvide \/ TReturn \/ TCrash \/ TFG
 TSpec == TInit /\ [][TNext]_tvars
 
 \* the property invariants a deviation contradicts are waived for the walk that used it, nothing else is
